@@ -16,6 +16,7 @@ package pipe
 
 import (
 	"context"
+	"github.com/logrange/logrange/pkg/lql"
 	"github.com/logrange/logrange/pkg/model"
 	"github.com/logrange/logrange/pkg/model/field"
 	"github.com/logrange/logrange/pkg/model/tag"
@@ -32,12 +33,14 @@ type (
 		w       bytes.Writer
 		rfld    field.Fields
 		ready   bool
+		fltF    lql.WhereExpFunc
 	}
 )
 
-func (si *siterator) init(extFlds field.Fields, it model.Iterator) {
+func (si *siterator) init(extFlds field.Fields, it model.Iterator, fltF lql.WhereExpFunc) {
 	si.extFlds = extFlds
 	si.it = it
+	si.fltF = fltF
 }
 
 func (si *siterator) Next(ctx context.Context) {
@@ -48,6 +51,11 @@ func (si *siterator) Next(ctx context.Context) {
 // Get returns current LogEvent, the TagsCond for the event or an error if any. It returns io.EOF when end of the collection is reached
 func (si *siterator) Get(ctx context.Context) (model.LogEvent, tag.Line, error) {
 	le, ln, err := si.it.Get(ctx)
+	// the events the pipe's filter condition rejects are not copied
+	for err == nil && !si.ready && si.fltF != nil && !si.fltF(&le) {
+		si.it.Next(ctx)
+		le, ln, err = si.it.Get(ctx)
+	}
 	if err != nil {
 		return le, ln, err
 	}
